@@ -29,12 +29,26 @@ SPEC = dict(
              'Builder.store_ref (appends the very object it is given to the builder\'s own list container, in place; raises at 4 entries) = model '
              'storeRef (c08_src_store_step) and Slice.load_ref (hands out the very Cell object in the list, changes only ref_offset) = model loadRef '
              '(c08_src_load_step); c08_src_separation_mut / c08_src_immutable_mut extend separation and immutability to histories containing them. '
-             'All other transitions (store_cell / store_slice / store_builder / store_bits / store_uint, load_bits / skip_bits / load_uint, '
-             'Cell(...) keeping the caller\'s containers, composite parsers) remain hand model + sampled correspondence.',
+             'The BIT-MOVING loads / stores are regenerated as well (c08_src_bits_step): Builder.store_bits / store_uint = model storeBits (the '
+             'builder\'s OWN array extended in place, overflow checked first, the argument only read), store_cell / store_slice / store_bits(array) = '
+             'model storeFrom (own array and own list extended by the source\'s remaining bits and the ELEMENTS of its remaining references - the '
+             'source\'s containers are never kept; the store_slice loop is proved by induction), Slice.preload_bits = peekBits, load_bits = '
+             'dropBits-with-result (a NEW array is returned), skip_bits / load_uint = dropBits (only the slice\'s OWN array shrinks, underflow checked '
+             'first; load_uint(0) raises). c08_src_history: ONE theorem over the whole regenerated alphabet - any interleaving of the eleven copy / '
+             'derive methods, store_ref, load_ref, the bit-moving loads / stores (any receivers, any arguments) and the remaining hand-model '
+             'transitions keeps Sep / WF / Coh and leaves every cell exactly as it was. (Builder.store_builder does not exist in the library.) '
+             'Cell(bits, refs): c08_src_ctor_step_partial - Cell.get_data_bytes, the only helper of __init__ that touches a bit array, is regenerated and proved to pad a COPY '
+             '(every existing container, list and object untouched); that __init__ stores the two pointers it is given is a check of the source text. '
+             'Still hand model + sampled correspondence: the rest of Cell.__init__ (cellCtor as a whole), the cells of '
+             'Boc.deserialize, hash / to_boc, the other typed loads / stores (store_int / store_bytes / store_coins, load_int / load_bytes ... : same '
+             'containers, other encodings), composite parsers.',
         level_note='For the eleven copy / derive methods: the translator harness/translate/pyheap.py with the declared interface of heapsrc.py '
                    '(attribute -> record field, x.copy() / x[k:] = a new container, Slice(..) / Cell(..) keep the pointers given, Builder() = two new '
-                   'empty containers, store_cell / store_slice = the model\'s storeFrom), validated on every change against Python object identities '
-                   '(64 calls over a 14-object pool; l.append(x) = in-place extension of the list container by the object itself, l[k] = the '
+                   'empty containers; inside to_builder store_cell / store_slice are still read as the model\'s storeFrom), validated on every change '
+                   'against Python object identities (319 calls over a 15-object pool; x.extend(v) / del x[:k] = TvmBitarray.extend / __delitem__ whose '
+                   'source text is checked (bounds check first, then in place), x[:k] = a new array, l += m = in-place extension by the elements, '
+                   'ba2int / int2ba = value functions, a length / size parameter is a non-negative int, store_bits reads only the items of its argument; '
+                   'a raising call leaves the heap as it was: compared on the receiver after every raising call; l.append(x) = in-place extension of the list container by the object itself, l[k] = the '
                    'object stored there, list elements are Cell objects as annotated). For everything else: '
                    'Trusted: Lean kernel (propext, Classical.choice, Quot.sound); Model/Heap.lean as a faithful hand transcription of which '
                    'containers each call in cell.py / slice.py / builder.py / deserialize.py copies, shares or mutates (checked by sampled '
@@ -1606,6 +1620,31 @@ def fresh_check(ctx, records, rng):
 SRC_CELLS = ['cf:101:-:-1', 'cf:0110:0:-1', 'cf:-:0.1.0.1:-1', 'cf:' + '10' * 511 + '1:-:-1', 'cf:' + heapsrc.LIB_BITS + ':-:2']
 
 
+# short histories around the bit-moving loads / stores (objects 0..4 = SRC_CELLS, then in creation order): the call, then writes through
+# every slice / builder in reach and all cells / caller arrays observed again (frame check + alias exploit after every step)
+SRC_BITS_HISTS = {
+    'store_cell': [['bn:B', 'st:5:1', 'sr:5:0', 'sbs:5:1', 'ob:1:hash', 'ob:0:hash'], ['bn:B', 'st:5:2', 'ob:2:hash', 'sbs:5:1', 'ob:2:hash'],
+                   ['bn:B', 'sbs:5:101', 'st:5:0', 'st:5:1', 'dv:5:end_cell', 'st:5:1', 'sr:5:0', 'ob:6:hash', 'ob:1:hash'],
+                   ['bn:B', 'sr:5:0', 'st:5:2', 'ob:2:hash'], ['bn:B', 'st:5:3', 'sbs:5:1', 'ob:3:hash'],
+                   ['bn:B', 'st:5:3', 'st:5:1', 'dv:5:end_cell', 'ob:6:hash'], ['bn:B', 'st:5:3', 'st:5:2', 'st:5:1', 'dv:5:end_cell']],
+    'store_slice': [['dv:1:begin_parse', 'bn:B', 'st:6:5', 'sbs:6:1', 'sr:6:0', 'sk:5:1', 'ob:1:hash', 'dv:6:end_cell'],
+                    ['dv:2:begin_parse', 'lr:5', 'bn:B', 'st:6:5', 'sr:6:1', 'lr:5', 'ob:2:hash', 'dv:5:to_cell', 'dv:6:end_cell'],
+                    ['dv:2:begin_parse', 'bn:B', 'sr:6:0', 'st:6:5', 'ob:2:hash']],
+    'store_bits': [['bn:B', 'sbs:5:10101', 'nb:0110:t', 'st:5:6', 'sbs:5:1', 'ob:0:hash', 'dv:5:end_cell'],
+                   ['bn:B', 'nb:0110:p', 'st:5:6', 'st:5:6', 'sbs:5:1', 'dv:5:end_cell'], ['bn:B', 'st:5:0', 'sbs:5:11', 'ob:0:hash']],
+    'store_uint': [['bn:B', 'su:5:5:3', 'su:5:0:1', 'dv:5:end_cell', 'su:5:1:1', 'ob:6:hash'], ['bn:B', 'st:5:0', 'su:5:3:2', 'ob:0:hash']],
+    'load_bits': [['dv:1:begin_parse', 'lb:5:2', 'sk:5:1', 'lb:5:1', 'ob:1:hash'], ['dv:0:begin_parse', 'lb:5:3', 'lb:5:1', 'ob:0:hash'],
+                  ['dv:1:begin_parse', 'lb:5:0', 'sk:5:2', 'dv:5:to_cell']],
+    'preload_bits': [['dv:1:begin_parse', 'pb:5:2', 'sk:5:1', 'pb:5:1', 'sk:5:1', 'ob:1:hash'], ['dv:1:begin_parse', 'lb:5:2', 'sk:5:1', 'ob:1:hash']],
+    'skip_bits': [['dv:1:begin_parse', 'sk:5:1', 'sk:5:2', 'sk:5:5', 'ob:1:hash', 'dv:5:to_cell'], ['dv:0:begin_parse', 'sk:5:3', 'sk:5:1']],
+    'load_uint': [['dv:1:begin_parse', 'lu:5:2', 'lu:5:1', 'lu:5:5', 'ob:1:hash', 'dv:5:to_cell'], ['dv:0:begin_parse', 'lu:5:3', 'lu:5:1']],
+    'preload_uint': [['dv:1:begin_parse', 'lu:5:2', 'lu:5:1', 'ob:1:hash', 'dv:5:to_cell']],
+    # Cell.get_data_bytes (the constructor's helper): cells built from the caller's own plain / Tvm arrays, then observed
+    'get_data_bytes': [['nb:10110:p', 'nr:-', 'ct:5:6:-1', 'ob:7:hash'], ['nb:1:t', 'nr:0', 'ct:5:6:-1', 'ct:5:6:-1', 'ob:7:hash', 'dv:7:begin_parse'],
+                       ['nb:10110101:p', 'nr:-', 'ct:5:6:-1']],
+}
+
+
 def src_search(ctx):
     """the proof that a regenerated copy / derive method equals the model step broke: Lean evaluates regenerated method vs model on the
     pool heap; for every differing (receiver kind, method) a short history is run through the full oracle (frame check + alias exploit:
@@ -1622,7 +1661,7 @@ def src_search(ctx):
             hists = ([['bn:B', 'sr:5:0', 'sr:5:2', 'dv:5:end_cell', 'sr:5:1', 'ob:6:hash', 'ob:2:hash'],
                       ['bn:B', 'sr:5:2', 'sr:5:2', 'sr:5:2', 'sr:5:2', 'sr:5:2', 'dv:5:end_cell', 'ob:2:hash']] if m == 'store_ref' else
                      [['dv:2:begin_parse', 'lr:5', 'lr:5', 'dv:5:to_cell', 'ob:1:hash', 'ob:2:hash', 'ob:0:hash'],
-                      ['dv:1:begin_parse', 'lr:5', 'lr:5', 'ob:1:hash', 'ob:0:hash']])
+                      ['dv:1:begin_parse', 'lr:5', 'lr:5', 'ob:1:hash', 'ob:0:hash']] if m == 'load_ref' else SRC_BITS_HISTS.get(m, []))
             for steps in hists:
                 try:
                     rerun(ctx, {'init': SRC_CELLS, 'steps': steps})
